@@ -157,6 +157,17 @@ impl Exec {
             self.bh = ScriptBH { mul: pu(t[1]), add: pu(t[2]), sh: pu(t[3]) as u32, seed: pu(t[4]) };
             return Some("ok".into());
         }
+        if t[0] == "both" {
+            // both <op> <i> <j> args...  = run <op> on i, then on j; answer "a | b"
+            let mk = |id: &str| -> String {
+                let mut v: Vec<&str> = vec![t[1], id];
+                v.extend_from_slice(&t[4..]);
+                v.join(" ")
+            };
+            let a = self.step(&mk(t[2])).unwrap();
+            let b = self.step(&mk(t[3])).unwrap();
+            return Some(format!("{} | {}", a, b));
+        }
         // every instance op: <op> <inst> args...
         let id = pu(t[1]);
         if let Some(Inst::Poisoned) = self.insts.get(&id) {
